@@ -9,7 +9,8 @@ SPEC = {
     "id": "C17",
     "harness": "c17",
     "n": {"quick": 800, "thorough": 20000},
-    "coq_modules": ["Server.Model", "Server.Spec", "Server.Witness"],
+    "coq_modules": ["Server.Model", "Server.Spec", "Server.Witness", "Server.Release", "Server.Check"],
+    "search": {"n": 3000, "timeout": 600},
     "components": {"1": "an observed event is not an enabled step of the model", "2": "`Previous` given to a computation differs from the model's",
                    "3": "socket envelopes differ", "4": "SubscriptionLogger calls differ", "5": "merge.ts client state differs from the model's fold",
                    "6": "subscriptions left in the map at the end differ"},
